@@ -221,6 +221,21 @@ func init() {
 			for _, e := range gen.ExprPrograms([]string{"2", "2.5", `"a"`, "nil"}) {
 				progs = append(progs, e)
 			}
+			// unparenthesised chains of three operands with every operator pair: their redundant
+			// parenthesisations (per the documented grouping) must compile to the same code
+			parenOnly := map[string]bool{}
+			for _, op1 := range gen.BinOps {
+				for _, op2 := range gen.BinOps {
+					chains := []string{"print 2 " + op1 + " 3 " + op2 + " 5", "print false " + op1 + " 1 " + op2 + " 2"}
+					for _, pre := range gen.PreOps {
+						chains = append(chains, "print "+pre+" 2 "+op1+" 3 "+op2+" 5", "print 2 "+op1+" "+pre+" 3 "+op2+" 5")
+					}
+					for _, ch := range chains {
+						parenOnly[ch] = true
+						progs = append(progs, ch)
+					}
+				}
+			}
 			for _, src := range progs {
 				toks, tail := gen.SplitTokens(src)
 				if len(toks) == 0 || len(toks) > 40 {
@@ -242,11 +257,17 @@ func init() {
 				if len(toks) <= k2 {
 					k = 2
 				}
+				if parenOnly[src] {
+					k = 0 // the chains are there for their parenthesisations; layouts are covered by the corpus programs
+				}
 				if !gen.Layouts(toks, tail, seps, k, do) {
 					c.Cap("deadline during layouts")
 					return
 				}
 				for _, s := range append(seps, "   ", "\n\n\n") {
+					if parenOnly[src] {
+						break
+					}
 					if r, ok := gen.AllSame(toks, tail, s); ok {
 						do(r)
 					}
